@@ -75,3 +75,23 @@ Theorem progress_blocked_by_stale_deleted :
     [Some ROk; None; Some (RLoaded []); Some (RErr EConflict); Some (RLoaded [])] /\
   regc (w_st (run stale_del_ops stale_del_evs)) = [(1, RE (RV (0,0) []) (Some (RV (1,1) [])))].
 Proof. vm_compute. repeat split; auto. Qed.
+
+(* the full progress statement of C15_Properties.v (a create refused with 409 must be justified by a live database
+   that owns one of its collections) is false for the unchanged code *)
+Theorem progress_full_statement_refuted :
+  ~ (forall ops evs d dig cols i nd,
+       sequential evs ->
+       nth_error (w_nodes (run ops evs)) i = Some nd -> n_op nd = OInsert d dig cols ->
+       result_of nd = Some (RErr EConflict) ->
+       exists d' e, d' <> d /\ aget (regc (w_st (run ops evs))) d' = Some e /\ live (rv_ver (e_cur e)) /\
+                    inter (eff cols) (rv_colls (e_cur e)) = true).
+Proof.
+  intros H.
+  destruct progress_blocked_by_stale_previous as (Hseq & _ & Hreg).
+  assert (exists nd, nth_error (w_nodes (run stale_ops stale_evs)) 3 = Some nd /\
+                     n_op nd = OInsert 3 7 [2] /\ result_of nd = Some (RErr EConflict)) as (nd & Hn & Ho & Hr).
+  { vm_compute. eexists. repeat split. }
+  destruct (H stale_ops stale_evs 3 7 [2] 3%nat nd Hseq Hn Ho Hr) as (d' & e & Hne & He & _ & Hi).
+  rewrite Hreg in He. cbn [aget] in He. destruct (1 =? d'); [|discriminate]. injection He as <-.
+  vm_compute in Hi. discriminate.
+Qed.
